@@ -721,6 +721,9 @@ func (x *Exec) execBlock(fc *frameCtx, b *ssa.BasicBlock, st *State) {
 			continue
 		}
 		x.execInstr(fc, b, st, in)
+		if x.afterInstr != nil {
+			x.afterInstr(fc, st, in)
+		}
 		if st.Guard.isFalse() {
 			break
 		}
@@ -757,6 +760,11 @@ func (x *Exec) execInstr(fc *frameCtx, b *ssa.BasicBlock, st *State, in ssa.Inst
 			x.storeLoc(st, p, x.zeroVal(p.T))
 			return
 		}
+		if r, ok := x.skipStruct[i]; ok {
+			fc.env[i] = r
+			x.zeroStruct(st, r, i.Type().(*types.Pointer).Elem())
+			return
+		}
 		fc.env[i] = x.newObject(st, i.Type().(*types.Pointer).Elem())
 	case *ssa.FieldAddr:
 		base := x.operand(fc, i.X, nil).(*Term)
@@ -767,8 +775,14 @@ func (x *Exec) execInstr(fc *frameCtx, b *ssa.BasicBlock, st *State, in ssa.Inst
 		if _, ok := isStruct(ft); ok {
 			fc.env[i] = tAdd(base, mkInt(fieldOffset(s, i.Field)))
 		} else if at, ok := ft.Underlying().(*types.Array); ok {
-			_ = at
-			oos("array-typed field %s", s.Field(i.Field).Name())
+			if x.roTables == nil {
+				oos("array-typed field %s", s.Field(i.Field).Name())
+			}
+			// the array occupies the refs from base+offset on (struct elements are laid out in place)
+			if _, isS := isStruct(at.Elem()); !isS {
+				oos("array-typed field %s of non-struct elements", s.Field(i.Field).Name())
+			}
+			fc.env[i] = PtrV{Kind: "array", Key: elemKey(at.Elem()), Ref: tAdd(base, mkInt(fieldOffset(s, i.Field))), T: ft}
 		} else {
 			fc.env[i] = PtrV{Kind: "field", Key: fieldKey(bt, s, i.Field), Ref: base, T: ft}
 		}
@@ -784,6 +798,11 @@ func (x *Exec) execInstr(fc *frameCtx, b *ssa.BasicBlock, st *State, in ssa.Inst
 			fc.env[i] = x.elemPtr(sv, xt.Elem(), idx)
 		case *types.Pointer:
 			at := xt.Elem().Underlying().(*types.Array)
+			if g, ok := i.X.(*ssa.Global); ok && x.roTables[g.Name()] {
+				x.safety(st, "idx", i.Pos(), i, tAnd(tLe(mkInt(0), idx), tLt(idx, mkInt(at.Len()))))
+				fc.env[i] = PtrV{Kind: "rotable", Key: "uf_" + g.Name(), Ref: mkInt(0), Idx: idx, T: at.Elem()}
+				return
+			}
 			pv := x.operand(fc, i.X, nil).(PtrV)
 			x.safety(st, "idx", i.Pos(), i, tAnd(tLe(mkInt(0), idx), tLt(idx, mkInt(at.Len()))))
 			sv := SliceV{pv.Ref, mkInt(0), mkInt(at.Len()), mkInt(at.Len())}
@@ -880,22 +899,68 @@ func (x *Exec) execInstr(fc *frameCtx, b *ssa.BasicBlock, st *State, in ssa.Inst
 	case *ssa.MapUpdate:
 		x.execMapUpdate(fc, st, i)
 	case *ssa.MakeClosure:
-		oos("closure in %s", fc.fn)
+		if x.closures == nil {
+			oos("closure in %s", fc.fn)
+		}
+		x.closures[i] = i
+		fc.env[i] = mkInt(int64(1000000 + len(i.Fn.String())))
 	case *ssa.Range, *ssa.Next:
 		oos("range over map/string in %s", fc.fn)
 	case *ssa.RunDefers:
 		for _, bb := range fc.fn.Blocks {
 			for _, ii := range bb.Instrs {
-				if _, isD := ii.(*ssa.Defer); isD {
-					oos("defer in %s", fc.fn)
+				if d, isD := ii.(*ssa.Defer); isD {
+					if x.closures == nil {
+						oos("defer in %s", fc.fn)
+					}
+					x.runDeferredClosure(fc, st, d)
 				}
 			}
 		}
-	case *ssa.Go, *ssa.Defer, *ssa.Select, *ssa.Send, *ssa.MakeChan:
+	case *ssa.Defer:
+		if x.closures == nil {
+			oos("%T in %s", in, fc.fn)
+		}
+		// executed at rundefers (E-DRV checks that every defer sits in the entry block, so it is always pending there)
+	case *ssa.Go, *ssa.Select, *ssa.Send, *ssa.MakeChan:
 		oos("%T in %s", in, fc.fn)
 	default:
 		oos("unsupported instruction %T (%s) in %s", in, in, fc.fn)
 	}
+}
+
+// runDeferredClosure executes the body of a deferred closure call `defer func(){...}()` in place: its
+// free variables are bound to the values captured by the MakeClosure instruction.
+func (x *Exec) runDeferredClosure(fc *frameCtx, st *State, d *ssa.Defer) {
+	mc, ok := d.Call.Value.(*ssa.MakeClosure)
+	if !ok || len(d.Call.Args) != 0 {
+		oos("deferred call is not a closure literal without arguments in %s", fc.fn)
+	}
+	fn := mc.Fn.(*ssa.Function)
+	saved := x.lazyEnv
+	outer := fc
+	x.lazyEnv = func(v ssa.Value) Val {
+		if fv, ok := v.(*ssa.FreeVar); ok {
+			for k, f := range fn.FreeVars {
+				if f == fv {
+					return x.operand(outer, mc.Bindings[k], nil)
+				}
+			}
+		}
+		if saved != nil {
+			return saved(v)
+		}
+		oos("free value %s in deferred closure", v.Name())
+		return nil
+	}
+	defer func() { x.lazyEnv = saved }()
+	x.depth++
+	sub := x.runFunction(fn, st, nil, nil, false)
+	x.depth--
+	if len(sub.rets) != 1 {
+		oos("deferred closure with %d return paths", len(sub.rets))
+	}
+	*st = *sub.rets[0].st
 }
 
 func (x *Exec) execUnOp(fc *frameCtx, st *State, i *ssa.UnOp) {
@@ -927,6 +992,9 @@ func (x *Exec) execUnOp(fc *frameCtx, st *State, i *ssa.UnOp) {
 // loadGlobal: package-level variables are read through a per-variable heap cell; globals
 // whose write set is empty keep their initial value (checked by E-FRAME, assumed here).
 func (x *Exec) loadGlobal(st *State, a PtrV) Val {
+	if v, ok := x.constGlobal[a.Key]; ok {
+		return v
+	}
 	cs := compsOf(a.T)
 	ts := make([]*Term, len(cs))
 	for i, c := range cs {
